@@ -123,7 +123,7 @@ def run(ctx):
     ut = pf.calls('utimes')
     okf = False
     if ut:
-        role = qsend.static_role(pf, ut[0], ut[0].args[0])
+        role = qsend.static_role(pf, ut[0], ut[0].args[0], prog)
         tv = [x for x in pf.all_x() if x.k == 'asg' and x.args[0].src().endswith('.tv_sec') and x.args[-1].src().endswith('pe.dt')]
         mins = pf.calls('prioq_min')
         okf = role == 'chan' and bool(tv) and pf.dominates(tv[0], ut[0]) and bool(mins) and 'pqchan[c]' in mins[0].args[0].src()
@@ -133,7 +133,7 @@ def run(ctx):
     okp = False
     if rd:
         st = [c for c in pa.calls('stat') if pa.dominates(c, rd[0])]
-        okp = bool(st) and qsend.static_role(pa, st[-1], st[-1].args[0]) == 'chan'
+        okp = bool(st) and qsend.static_role(pa, st[-1], st[-1].args[0], prog) == 'chan'
     r4.check(okp, 'pqadd-reads-the-time-back-from-the-channel-file-mtime', pa.unit + ':pqadd', 'pechan[c].dt = st.st_mtime after stat of the channel file')
     r4.expect_min(7)
 
